@@ -267,6 +267,16 @@ V  c11  C12  Cij44  c2311
 10.1 10.2 10.3
 9.1 9.2 9.3
 """
+# TABLE_A with its columns in another order and case: a shear-coupling column first, the longitudinal one in the middle (C13: column order is presentation)
+TABLE_D = """title line kept
+1234.500000  2  100.250000
+V  C2311  cij44  C11  c21
+1100.0  -3.5  80.125  300.5  110.25
+1000.0  -4.5  90.125  350.5  120.25
+ lattice_a lattice_b lattice_c
+10.1 10.2 10.3
+9.1 9.2 9.3
+"""
 TABLE_B = """another title
 987.000000 3 55.500000
 vol c33 c13
@@ -419,9 +429,10 @@ def r_elast(ctx, model):
                   ((8.1, 8.2, 8.3), (9.1, 9.2, 9.3), (10.1, 10.2, 10.3))),
     }
     # the table without lattice block again, as editors leave it: one empty line after the table, and a line holding only blanks
+    wants["d.dat"] = wants["a.dat"]
     wants["b-blank.dat"] = wants["b.dat"]
     wants["b-spaces.dat"] = wants["b.dat"]
-    for name, text in (("a.dat", TABLE_A), ("b.dat", TABLE_B), ("c.dat", TABLE_C), ("b-blank.dat", TABLE_B + "\n"), ("b-spaces.dat", TABLE_B + "   \n")):
+    for name, text in (("a.dat", TABLE_A), ("b.dat", TABLE_B), ("c.dat", TABLE_C), ("d.dat", TABLE_D), ("b-blank.dat", TABLE_B + "\n"), ("b-spaces.dat", TABLE_B + "   \n")):
         intr = io_intrinsics({name: text}, [])
         intr["cij.c_"] = c_intrinsic
         intr.update(text_table_intrinsics())
@@ -432,7 +443,7 @@ def r_elast(ctx, model):
             ctx.violation(f"elast.{name}", w, "the reference table is parsed", f"raises {e.exc_name} at {e.where}", f"read_elast_data fails on a well-formed table ({e.exc_name})")
             continue
         got = plain(out)
-        ctx.check(close(got, wants[name]), f"read_elast_data on reference table {name} ({'without' if name.startswith('b') else 'with'} lattice block{', rows by increasing volume' if name == 'c.dat' else ''})", w,
+        ctx.check(close(got, wants[name]), f"read_elast_data on reference table {name} ({'without' if name.startswith('b') else 'with'} lattice block{', rows by increasing volume' if name == 'c.dat' else ', columns reordered' if name == 'd.dat' else ''})", w,
                   expected=str(wants[name])[:300], found=str(got)[:300],
                   explanation="the static table is not parsed into (reference volume, count, cell mass, per-volume components under canonical keys, "
                               "lattice rows): header field order, volume column, key/column pairing or the lattice block", key=f"elast.{name}")
